@@ -54,7 +54,7 @@ def generate(ctx, salt, nprog, features=None, ncalls=8, size=1.0, stats=None):
     models = H.model_eval(progs, f"{ctx.pid}{salt}")
     items = []
     for (p, calls), (res, fin) in zip(progs, models):
-        cs, rs, chosen = filter_calls(calls, res, ncalls + 6)
+        cs, rs, chosen = filter_calls(calls, res, ncalls + 12, max_revert_frac=0.4)
         items.append({"prog": p, "calls": cs, "all_calls": calls, "chosen": chosen, "model": (rs, None)})
     # final storage must be recomputed for the kept prefix: re-evaluate the kept sequences
     models2 = H.model_eval([(it["prog"], it["calls"]) for it in items], f"{ctx.pid}{salt}b")
